@@ -30,11 +30,20 @@ func (jenny *Builder) Generate(context languages.Context) (codejen.Files, error)
 	files := codejen.Files{}
 	buildersByPackage := make(map[string][]ast.Builder)
 
+	// one file per package, like the types: packages are told apart by their
+	// exact name, and handled in the order of their first builder (generating a
+	// builder registers its methods for the API reference).
+	var packages []string
 	for _, builder := range context.Builders {
-		buildersByPackage[strings.ToLower(builder.Package)] = append(buildersByPackage[strings.ToLower(builder.Package)], builder)
+		if _, found := buildersByPackage[builder.Package]; !found {
+			packages = append(packages, builder.Package)
+		}
+		buildersByPackage[builder.Package] = append(buildersByPackage[builder.Package], builder)
 	}
 
-	for pkg, builders := range buildersByPackage {
+	for _, pkg := range packages {
+		builders := buildersByPackage[pkg]
+
 		var source strings.Builder
 
 		jenny.imports = NewImportMap()
